@@ -6,6 +6,8 @@
 (*   t1(v) = v*v + 3v           (elementwise)                                *)
 (*   t2(v) = sum(v) * v         (reduction, then scale)                      *)
 (*   t3(v) = <<v1*v2, v1+v2>>   (cross terms)                                *)
+(*   t4(v) = prod(v) * <<1,1>>   (product reduction; its derivative has a     *)
+(*                               case split on the number of zeros)           *)
 (* Transformations and their meaning:                                        *)
 (*   jit, remat (checkpoint), nested jit : identity on the function          *)
 (*   vmap(in_axes = a, out_axes = b) on a 2x2 matrix X : apply f to the       *)
@@ -25,10 +27,12 @@ Mat == [1..2 -> [1..2 -> {-1, 0, 2}]]
 F(t, v) == CASE t = "t1" -> [i \in 1..2 |-> v[i] * v[i] + 3 * v[i]]
              [] t = "t2" -> [i \in 1..2 |-> (v[1] + v[2]) * v[i]]
              [] t = "t3" -> [i \in 1..2 |-> IF i = 1 THEN v[1] * v[2] ELSE v[1] + v[2]]
+             [] t = "t4" -> [i \in 1..2 |-> v[1] * v[2]]          \* jnp.prod(v) broadcast: derivative rules with zeros in the window
 \* Jacobian J[i][j] = d f_i / d v_j
 Jac(t, v) == CASE t = "t1" -> [i \in 1..2 |-> [j \in 1..2 |-> IF i = j THEN 2 * v[i] + 3 ELSE 0]]
                [] t = "t2" -> [i \in 1..2 |-> [j \in 1..2 |-> v[i] + (IF i = j THEN v[1] + v[2] ELSE 0)]]
                [] t = "t3" -> [i \in 1..2 |-> [j \in 1..2 |-> IF i = 1 THEN (IF j = 1 THEN v[2] ELSE v[1]) ELSE 1]]
+               [] t = "t4" -> [i \in 1..2 |-> [j \in 1..2 |-> IF j = 1 THEN v[2] ELSE v[1]]]
 Jvp(t, v, tg) == [i \in 1..2 |-> Jac(t, v)[i][1] * tg[1] + Jac(t, v)[i][2] * tg[2]]
 Grad(t, v) == [j \in 1..2 |-> Jac(t, v)[1][j] + Jac(t, v)[2][j]]
 \* user rule of the custom_jvp template: twice the true derivative of t1
@@ -38,7 +42,7 @@ Slice(X, a, k) == IF a = 0 THEN X[k] ELSE [i \in 1..2 |-> X[i][k]]
 Stack(rows, b) == IF b = 0 THEN rows ELSE [i \in 1..2 |-> [k \in 1..2 |-> rows[k][i]]]
 Vmap(t, X, a, b) == Stack([k \in 1..2 |-> F(t, Slice(X, a, k))], b)
 
-Templates == {"t1", "t2", "t3"}
+Templates == {"t1", "t2", "t3", "t4"}
 Cases ==
     {[k |-> "identity", tr |-> tr, t |-> t, v |-> v] : tr \in {"jit", "nested_jit", "remat"}, t \in Templates, v \in Vec}
     \cup {[k |-> "vmap", t |-> t, X |-> X, a |-> a, b |-> b] : t \in Templates, X \in Mat, a \in {0, 1}, b \in {0, 1}}
